@@ -330,3 +330,61 @@ def same(text, want):
     if node is not None:
         return _canon_match("same", want, node)
     return False
+
+
+# ---- quote! templates modulo local TokenStream bindings --------------------------------------------------------------
+
+def xquotes(node, also_plain=True):
+    """quote!/quote_spanned! templates below `node`, with interpolations of *local TokenStream bindings of the
+    enclosing function* (`let x = quote!(..);` defined exactly once) replaced by the tokens they stand for. Binding a
+    part of a template to a local first, or inlining such a local, gives the same expanded template."""
+    import copy
+    from astlib import walk, quotes_in
+    fn = CURRENT_AST.enclosing_fn(node) if CURRENT_AST is not None else None
+    scope = fn.body if fn is not None and fn.body is not None else node
+    defs = {}
+    multi = set()
+    for n in walk(scope):
+        if n["k"] == "Let" and n["pat"]["k"] == "PIdent" and isinstance(n.get("init"), dict) and n["init"].get("k") == "Macro" \
+                and n["init"].get("path") in ("quote", "quote_spanned", "quote::quote") and "tokens" in n["init"]:
+            nm = n["pat"]["name"]
+            if nm in defs:
+                multi.add(nm)
+            defs[nm] = n["init"]["tokens"]
+        elif n["k"] == "Let":
+            from astlib import pat_bindings
+            for nm in pat_bindings(n["pat"]):
+                if nm in defs:
+                    multi.add(nm)
+    for nm in multi:
+        defs.pop(nm, None)
+
+    def expand(tokens, depth):
+        out = []
+        for t in tokens:
+            if t["t"] in ("group", "rep"):
+                t2 = dict(t)
+                t2["c"] = expand(t["c"], depth)
+                out.append(t2)
+            elif t["t"] == "interp" and t["v"] in defs and depth < 6:
+                out.extend(expand(copy.deepcopy(defs[t["v"]]), depth + 1))
+            else:
+                out.append(t)
+        return out
+    res = []
+    for q in quotes_in(node):
+        q2 = dict(q)
+        q2["tokens"] = expand(q["tokens"], 0)
+        res.append(q2)
+    return res
+
+
+def msum(prog, name_rx, stop=None, crate=None):
+    """[(body name, return-value summary text or None, [effect texts])] of the bodies matching name_rx (py/mirsum.py)"""
+    import mirsum
+    out = []
+    for b in prog.bodies_matching(name_rx, crate):
+        eff = []
+        t = mirsum.summary(prog, b, stop=stop, effects=eff)
+        out.append((b.name, mirsum.fmt(t) if t is not None else None, [mirsum.fmt(e) for e in eff]))
+    return out
